@@ -78,7 +78,13 @@ def run(rep):
     # (short counts, EINTR, ENOSPC, file size limit): real binary under the shim, tools/execbody.py (shared with C13)
     import proc
     import execbody
-    fault_cov = execbody.stage(rep, proc.Tools(sc), whole_part=False)
+    ptools = proc.Tools(sc)
+    fault_cov = execbody.stage(rep, ptools, whole_part=False)
+    # ... and the decoded body of the CURRENT message when rewriting / renaming / copying actions stand before, between and after the commands
+    # of an action list: tools/execseq.py (shared with C13)
+    import world
+    import execseq
+    seq_cov = execseq.stage(rep, ptools, world.WorldCheck(sc, ptools), focus='body')
     if ebad and not rep.violations:
         rep.violation({'obligation': 'correspondence expr_eval_attachment(_block) <-> Model/Eval.lean', 'disagreements': len(ebad),
                        'examples': [dict(c.readable(), implementation=ec.impl_core(c), model=c.model) for c in ebad[:4]]}, False)
@@ -105,6 +111,7 @@ def run(rep):
         'spec_failures': len(d.spec_fail),
         'sanitizer_faults': len(d.faults),
         'exec_stdin_body_under_write_faults': fault_cov,
+        'exec_stdin_body_across_action_sequences': seq_cov,
     })
     rep.assumptions += ['C locale / C.utf8']
 
@@ -112,12 +119,13 @@ def run(rep):
 def replay(rep, path):
     import json
     j = json.load(open(path))
-    if j.get('stage') == 'execbody':
+    if j.get('stage') in ('execbody', 'execseq'):
         import proc
         import execbody
+        import execseq
         sc = vlib.Scratch()
         vlib.lean_gate(rep, 'C11', sc, [])
-        execbody.replay(proc.Tools(sc), j)
+        (execbody if j['stage'] == 'execbody' else execseq).replay(proc.Tools(sc), j)
         rep.coverage.update({'evaluations': 1, 'distinct_nontrivial': 1})
         return
     mc.generic_replay(rep, path, 'C11', SPEC_OPS, {})
